@@ -25,7 +25,44 @@ RULE = ("muxes with 1-4 inputs on the same or different sources, inputs at depth
 ASSUMPTIONS = ["a mux input is 'live' iff its row reports a non-zero output voltage"]
 
 
+def fallback_script(rng):
+    """the unplugged-preferred-supply design in its smallest form, with the parts in every creation order: a dead source (0 V, or active
+    only in some phase) listed first, the live supply reaching the mux through a regulator / converter / switch with default settings,
+    constant-power or resistive loads behind the mux, and an indicator load directly on the dead source - created LAST, first, or in
+    between (what the solver starts from must not depend on which component was created last)"""
+    names = []
+    dead_by_phase = rng.random() < 0.4
+    s1 = {"name": "USB", "kind": "source", "args": {"vo": 0.0 if not dead_by_phase else gen.sd(rng, 4.5, 5.5)}, "parents": []}
+    if dead_by_phase:
+        names = ["plugged", "mobile"]
+        s1["pconf"] = ["plugged"]
+    s2 = {"name": "BAT", "kind": "source", "args": {"vo": gen.sd(rng, 6.0, 14.0)}, "parents": []}
+    k = rng.choice(["linreg", "linreg", "converter", "pswitch"])
+    a = {"linreg": {"vo": 5.0}, "converter": {"vo": 5.0, "eff": gen.ud(rng, 0.8, 0.95)}, "pswitch": {"rs": 0.05}}[k]
+    reg = {"name": "REG", "kind": k, "args": a, "parents": ["BAT"]}
+    mux = {"name": "MX", "kind": "pmux", "args": {"rs": [gen.sd(rng, 0.05, 0.3), gen.sd(rng, 0.05, 0.5)]}, "parents": ["USB", "REG"]}
+    loads = []
+    for j in range(rng.randint(1, 2)):
+        if rng.random() < 0.6:
+            loads.append({"name": "P%d" % j, "kind": "pload", "args": {"pwr": gen.sd(rng, 0.1, 2.0)}, "parents": ["MX"]})
+        else:
+            loads.append({"name": "R%d" % j, "kind": "rload", "args": {"rs": gen.sd(rng, 10, 500)}, "parents": ["MX"]})
+    led = {"name": "LED", "kind": rng.choice(["pload", "rload", "iload"]), "parents": ["USB"]}
+    led["args"] = {"pload": {"pwr": 0.02}, "rload": {"rs": 1000.0}, "iload": {"ii": 0.005}}[led["kind"]]
+    rest = [reg, mux] + loads
+    pos = rng.choice([len(rest), len(rest), 0, rng.randint(0, len(rest))])
+    if pos < 2:
+        pos = min(pos, 0)            # before the regulator, or after the mux exists: parents must exist when a component is added
+    rest.insert(pos, led)
+    desc = {"name": "mux", "comps": [s1, s2] + rest, "phases": ({p: gen.sd(rng, 1.0, 1e3) for p in names} if names else {})}
+    if names:
+        desc["_build"] = {"phase_order": "normal"}
+    return desc
+
+
 def gen_fn(rng):
+    if rng.random() < 0.1:
+        return fallback_script(rng)
     ns = rng.choice([1, 2, 2, 3, 4])
     comps = []
     for s in range(ns):
